@@ -45,6 +45,7 @@ def O(s):
 INT, I8, I16, I32, I64 = B("int"), B("int8"), B("int16"), B("int32"), B("int64")
 UINT, U8, U16, U32, U64 = B("uint"), B("uint8"), B("uint16"), B("uint32"), B("uint64")
 F32, F64, STR = B("float32"), B("float64"), B("string")
+ERR, ANY, BOOL = B("error"), B("any"), B("bool")
 SRC_KIND, DEST_KIND = NM("src", "Kind", INT), NM("dest", "Kind", INT)
 SRC_LABEL, DEST_TEXT, DEST_CODE = NM("src", "Label", STR), NM("dest", "Text", STR), NM("dest", "Code", I32)
 SRC_SUB, DEST_SUB = NM("src", "Sub", ("st", "N:int")), NM("dest", "Sub", ("st", "N:int,Other:string"))
@@ -80,10 +81,37 @@ def under(t):
     return t[3] if t[0] == "n" else t
 
 
+_GOTYPES = {"bin": None, "rel": {}}
+
+
+def use_gotypes(ctx):
+    """take Identical / ConvertibleTo from the real go/types (harness/cmd/mapconv) instead of the rules below"""
+    _GOTYPES["bin"] = ctx.harness("mapconv")
+
+
+def _gotypes_fill(tys):
+    import json
+    import subprocess
+    src = SRC_TYPES_GO.replace("package src\n", 'package src\n\nimport "m/dest"\n\nvar _ dest.Kind\n', 1)
+    req = {"dest": DEST_TYPES_GO, "src": src, "types": [go_type(t, "src") for t in tys]}
+    p = subprocess.run([_GOTYPES["bin"]], input=json.dumps(req), stdout=subprocess.PIPE, stderr=subprocess.PIPE, text=True, timeout=120)
+    if p.returncode != 0:
+        raise RuntimeError("mapconv failed: " + p.stderr[-500:])
+    rel = json.loads(p.stdout)["rel"]
+    for i, a in enumerate(tys):
+        for j, b in enumerate(tys):
+            _GOTYPES["rel"][(a, b)] = rel[i][j]
+
+
 def convertible(a, b):
-    """go/types ConvertibleTo on the palette (not the mapper's string<->int guard)"""
+    """go/types ConvertibleTo (not the mapper's string<->int guard): from the real go/types when use_gotypes() was called,
+    else the rules below (the palette of the first version)"""
     if a == b:
         return True
+    if _GOTYPES["bin"]:
+        if (a, b) not in _GOTYPES["rel"]:
+            _gotypes_fill([a, b])
+        return _GOTYPES["rel"][(a, b)] in "sc"
     ua, ub = under(a), under(b)
     if ua == ub:
         return True
@@ -247,7 +275,10 @@ def uses_type(spec, t):
 
 def render_struct(s, pkg):
     lines = ["type %s struct {" % s["name"]]
-    for m in s["members"]:
+    ms = s["members"]
+    for ix, m in enumerate(ms):
+        if m["k"] == "f" and m.get("join"):
+            continue          # rendered with the member it is joined to
         if m["k"] == "e":
             lines.append("\t%s%s" % ("*" if m["ptr"] else "", m["decl"]["name"]))
             continue
@@ -257,7 +288,12 @@ def render_struct(s, pkg):
         tag = ""
         if m.get("tag") is not None:
             tag = ' `map:"%s"`' % m["tag"]
-        lines.append("\t%s %s%s" % (m["name"], go_type(m["type"], pkg), tag))
+        names = [m["name"]]
+        j = ix + 1
+        while j < len(ms) and ms[j]["k"] == "f" and ms[j].get("join"):
+            names.append(ms[j]["name"])
+            j += 1
+        lines.append("\t%s %s%s" % (", ".join(names), go_type(m["type"], pkg), tag))
     lines.append("}")
     return "\n".join(lines)
 
@@ -299,9 +335,10 @@ def render_src(spec, modpath, pkgname="src"):
         kp = key[:1].upper() + key[1:]
         dt = "dest." + spec["dname"]
         if man.get("write"):
-            body.append("func (x *%s) %s%s(d *%s) {}\n" % (s["name"], man["write"], kp, dt))
+            body.append("func (x %s%s) %s%s(d *%s) {}\n" % ("" if man.get("recvval") else "*", s["name"], man["write"], kp, dt))
         if man.get("read"):
-            body.append("func (x *%s) %s%s(d %s%s) {}\n" % (s["name"], man["read"], kp, "*" if man.get("readptr") else "", dt))
+            body.append("func (x %s%s) %s%s(d %s%s) {}\n" % ("" if man.get("recvval") else "*", s["name"], man["read"], kp,
+                                                           "*" if man.get("readptr") else "", dt))
     for d in embed_decls(s):
         body.append(render_struct(d, "src"))
         body.append("")
@@ -396,7 +433,7 @@ def members_sexp(s, tix):
             item = ["f", Q(m["name"]), "t%d" % tix[m["type"]]]
             if m.get("tag") is not None:
                 item.append(["tag", Q(m["tag"])])
-            for d in ("get", "set", "new"):
+            for d in ("get", "set", "new", "join"):
                 if m.get(d):
                     item.append(d)
             out.append(item)
@@ -407,6 +444,8 @@ def members_sexp(s, tix):
 
 def case_sexp(cid, spec, masks=None, fmasks=None, prop="C05"):
     tys = all_types(spec)
+    if _GOTYPES["bin"] and any((a, b) not in _GOTYPES["rel"] for a in tys for b in tys):
+        _gotypes_fill(tys)
     tix = {t: i for i, t in enumerate(tys)}
     conv = [["t%d" % tix[a], "t%d" % tix[b]] for a in tys for b in tys if a != b and convertible(a, b)]
     fl = spec["flags"]
@@ -449,12 +488,12 @@ DEST_EMBEDS = ["Base", "MetaD", "Core", "Stamp"]
 DEST_INNER = ["Inner", "DeepD", "Leaf"]
 
 SAME = [INT, STR, I64, F64, U8, I32, UINT, P(INT), P(STR), SL(INT), SL(STR), MAP_SI, MAP_SS, DEST_DEC, DEST_KIND,
-        SL(DEST_DEC), P(DEST_DEC), I8, U16, F32, DEST_TEXT]
+        SL(DEST_DEC), P(DEST_DEC), I8, U16, F32, DEST_TEXT, ERR, ANY, BOOL, SL(ERR), P(BOOL)]
 CONV = [(INT, I64), (I32, INT), (U8, INT), (F64, INT), (INT, F32), (SRC_LABEL, STR), (STR, DEST_TEXT), (INT, DEST_KIND),
         (SRC_KIND, INT), (I64, DEST_CODE), (U32, U64), (I16, I8), (SRC_KIND, I64), (F32, F64), (UINT, INT), (I8, DEST_KIND)]
-ONEWAY = [(INT, STR), (UINT, STR), (INT, DEST_TEXT), (SRC_KIND, STR)]          # integer -> string converts, not back
+ONEWAY = [(INT, STR), (UINT, STR), (INT, DEST_TEXT), (SRC_KIND, STR), (ERR, ANY), (INT, ANY), (DEST_DEC, ANY)]   # converts one way only
 MISCONV = [(I32, STR), (STR, I64), (U8, STR), (STR, DEST_CODE), (SRC_LABEL, I32), (U64, DEST_TEXT), (I16, STR)]
-NONE = [(STR, SL(INT)), (INT, MAP_SI), (SL(INT), SL(I64)), (SRC_SUB, INT), (SL(SRC_SUB), DEST_SUB), (P(INT), INT),
+NONE = [(BOOL, INT), (ERR, STR), (ANY, INT), (STR, SL(INT)), (INT, MAP_SI), (SL(INT), SL(I64)), (SRC_SUB, INT), (SL(SRC_SUB), DEST_SUB), (P(INT), INT),
         (STR, INT), (MAP_SI, MAP_SS), (P(INT), P(I64)), (SL(STR), STR), (F64, STR)]
 FUNCABLE = [(INT, STR), (STR, DEST_DEC), (INT, I64), (INT, INT), (STR, INT), (F64, STR), (STR, STR), (I32, STR),
             (SRC_KIND, DEST_DEC), (SRC_SUB, DEST_SUB), (I64, DEST_TEXT), (SL(INT), STR)]
@@ -593,7 +632,7 @@ class MapGen:
                 sfields[sp].append(F(sn, a, tag))
                 dfields[dp].append(F(dn, b))
             if (kind in ("func", "funconly") or (kind in ("conv", "same", "sub") and r.random() < o.get("func_over", 0.15))) and not (
-                    elem_struct(a) or elem_struct(b)):
+                    elem_struct(a) or elem_struct(b) or {a, b} & {BOOL, P(BOOL)}):
                 way = 0.5 if kind == "funconly" else r.random()
                 if way < 0.8:
                     funcs.append({"param": a, "result": b})
@@ -645,12 +684,26 @@ class MapGen:
         for fs in list(sfields.values()) + list(dfields.values()):
             r.shuffle(fs)
 
+        def join_some(fs):
+            """`A, B int`: put two plain fields of one type next to each other in one declaration"""
+            for i, f in enumerate(fs):
+                for j in range(i + 1, len(fs)):
+                    g_ = fs[j]
+                    if g_["type"] == f["type"] and g_["tag"] == f["tag"] and f["tag"] != "-" and not f.get("join"):
+                        fs.insert(i + 1, dict(fs.pop(j), join=True))
+                        return
+
+        for fs in list(sfields.values()) + list(dfields.values()):
+            if r.random() < o.get("multiname", 0.12):
+                join_some(fs)
+
         def build(name, paths, ptr, fields, pre=()):
             members = list(fields[pre])
             for p in paths:
                 if len(p) == len(pre) + 1 and p[:len(pre)] == pre:
                     e = E(build(p[-1], paths, ptr, fields, p), ptr[p])
-                    members.insert(r.randint(0, len(members)), e)
+                    pos = [k for k in range(len(members) + 1) if k == len(members) or not members[k].get("join")]
+                    members.insert(self.pick(pos), e)
             return ST(name, members)
         src = build(sname, spaths, sptr, sfields)
         dest = build(dname, dpaths, dptr, dfields)
@@ -677,7 +730,7 @@ class MapGen:
         # empty manual hooks (toX/writeX, fromX/readX): called last, assign nothing
         if r.random() < o.get("manual", 0.0):
             spec["manual"] = {"write": self.pick([None, "to", "write"]), "read": self.pick(["from", "read", "read"]),
-                              "readptr": r.random() < 0.5}
+                              "readptr": r.random() < 0.5, "recvval": r.random() < 0.3}
         return spec
 
 
@@ -701,7 +754,7 @@ def to_new(rng, spec, side, keep_exported=0.2, getonly=0.15, setonly=0.15, newma
     for m in st["members"]:
         if m["k"] != "f":
             continue
-        m = dict(m)
+        m = dict(m, join=False)
         if m["name"][:1].isupper() and rng.random() >= keep_exported:
             m["name"] = unexport(m["name"])
             r = rng.random()
@@ -967,6 +1020,22 @@ def c01_leg(ctx, res, n):
                 v.setdefault("detail", c.get("detail"))
                 v.setdefault("sources", c.get("files"))
     return len(cases)
+
+
+def normalize_bool(spec, d):
+    """a bool leaf can only be told apart from zero: model/spec values of bool leaves become `set`"""
+    for side, pre in (("dest", ("to:", "toN:")), ("src", ("from:", "fromN:", "rt:", "reset:"))):
+        bl = [p for p, m in leaves(spec[side]) if m["type"] in (BOOL, P(BOOL))]
+        if not bl:
+            continue
+        for k in list(d):
+            if k.startswith(pre[0]) and k[len(pre[0]):] in bl or (k.startswith("rt:") and side == "src" and k[3:] in bl):
+                if d[k] not in ("zero", "nil", "panic"):
+                    d[k] = "set"
+            elif k.startswith(pre[1:]):
+                for p in bl:
+                    d[k] = re.sub(r"(^|;)%s=(?!zero(;|$))[^;]*" % re.escape(p), r"\1%s=set" % p, d[k])
+    return d
 
 
 def count_features(spec, feats=None):
